@@ -39,6 +39,12 @@ def stepLine (s : Store) (ws : List String) : Store × String :=
       ({ s with topics := s.topics ++ [(t, n)],
                 layouts := s.layouts ++ (List.range n).map fun p => ((t, p), layoutOf v p) }, "ok")
     | _, _, _ => (s, "bad-op")
+  | ["ptopic", t, o, v] => match t.toNat?, o.toNat?, v.toNat? with
+    | some t, some o, some v =>
+      let ids := partOrderTable.getD (o % partOrderTable.length) []
+      ({ s with topics := s.topics ++ [(t, ids.length)], partIds := s.partIds ++ [(t, ids)],
+                layouts := s.layouts ++ (List.range ids.length).map fun pos => ((t, pos), layoutOf v pos) }, "ok")
+    | _, _, _ => (s, "bad-op")
   | ["topic", t, n] => match t.toNat?, n.toNat? with
     | some t, some n =>
       let bad := n = 0 ∨ (alookup s.topics t).isSome ∨ s.brokers = 0
